@@ -193,7 +193,97 @@ def rule_shared(rep: Report, rid="C15.shared") -> None:
                         if isinstance(n, ast.Call) and isinstance(n.func, ast.Attribute) and n.func.attr in Interp.MUTATORS and isinstance(n.func.value, ast.Name) and n.func.value.id == name:
                             used_mut = True
                 rep.ob(rid, f"module-level object {m.name}.{name} is never mutated", not used_mut, file=m.rel, line=val.lineno, function=m.name, expected="read-only", found="mutated" if used_mut else "read-only")
+    # objects with a life of their own (a matcher, a builder, a scanner: classes whose methods change self after construction)
+    # kept in a module-level container are handed to several users: one parse then resets or advances the other's
+    for m in f.modules.values():
+        if m.name == "gherkin.inout" or not _in_scope(m.name):
+            continue
+        for name, val in m.globals.items():
+            if not (isinstance(val, (ast.List, ast.Dict, ast.Set)) or (isinstance(val, ast.Call) and xdotted(val.func, m) in (
+                    "list", "dict", "set", "deque", "defaultdict", "collections.deque", "collections.defaultdict", "collections.OrderedDict", "OrderedDict",
+                    "weakref.WeakValueDictionary", "WeakValueDictionary"))):
+                continue
+            kept = []
+            for fi in _pkg_functions():
+                if fi.module is not m and f.resolve_name(fi.module, name) is None:
+                    continue
+                for n in ast.walk(fi.node):
+                    vals = []
+                    if isinstance(n, ast.Assign) and any(isinstance(t, ast.Subscript) and isinstance(t.value, ast.Name) and t.value.id == name for t in n.targets):
+                        vals = [n.value]
+                    elif isinstance(n, ast.Call) and isinstance(n.func, ast.Attribute) and isinstance(n.func.value, ast.Name) and n.func.value.id == name \
+                            and n.func.attr in ("setdefault", "append", "add", "insert", "appendleft", "update", "extend"):
+                        vals = list(n.args[-1:]) + [k.value for k in n.keywords]
+                    for v in vals:
+                        c = _stateful_instance(fi, v)
+                        if c:
+                            kept.append(f"{fi.qualname}:{n.lineno} keeps a {c}")
+            rep.ob(rid, f"module-level container {m.name}.{name} keeps no object that changes after construction (one shared by every user of the module)", not kept,
+                   file=m.rel, line=val.lineno, function=m.name, expected="values only (nothing with per-parse state)", found=kept or "no stateful object stored")
     rule_no_mutable_defaults(rep, rid)
+
+
+def _stateful_classes():
+    """classes of the package whose methods write self after construction (reset, read, get_next_id, ...)"""
+    f = facts()
+    out = set()
+    for c in f.all_classes():
+        for fi in c.methods.values():
+            if fi.name in ("__init__", "__new__", "__post_init__") or not fi.params():
+                continue
+            me = fi.params()[0]
+            for n in ast.walk(fi.node):
+                if isinstance(n, ast.Attribute) and isinstance(n.ctx, (ast.Store, ast.Del)) and isinstance(n.value, ast.Name) and n.value.id == me:
+                    out.add(c.qualname)
+                if isinstance(n, ast.Call) and isinstance(n.func, ast.Attribute) and n.func.attr in Interp.MUTATORS and isinstance(n.func.value, ast.Attribute) \
+                        and isinstance(n.func.value.value, ast.Name) and n.func.value.value.id == me:
+                    out.add(c.qualname)
+    # subclasses inherit the behaviour
+    grew = True
+    while grew:
+        grew = False
+        for c in f.all_classes():
+            if c.qualname not in out and any(b.qualname in out for b in c.mro()):
+                out.add(c.qualname)
+                grew = True
+    return out
+
+
+def _stateful_instance(fi, v):
+    """qualified class name when expression `v` (in function fi) is a new instance of a stateful class - written as the call
+    itself or as a name the function binds to such a call"""
+    f = facts()
+    st = _stateful_classes()
+
+    def cls_of(e):
+        if isinstance(e, ast.Call):
+            nm = e.func
+            r = None
+            if isinstance(nm, ast.Name):
+                r = f.resolve_name(fi.module, nm.id)
+            elif isinstance(nm, ast.Attribute) and isinstance(nm.value, ast.Name):
+                r0 = f.resolve_name(fi.module, nm.value.id)
+                if r0 is not None and r0[0] == "module":
+                    r = f.resolve_name(f.modules[r0[1]], nm.attr) if r0[1] in f.modules else None
+            if r is not None and r[0] == "class":
+                q = r[1] if isinstance(r[1], str) else getattr(r[1], "qualname", None)
+                if q in st:
+                    return q
+        return None
+    c = cls_of(v)
+    if c:
+        return c
+    if isinstance(v, ast.Name):
+        for n in ast.walk(fi.node):
+            if isinstance(n, ast.Assign) and any(isinstance(t, ast.Name) and t.id == v.id for t in n.targets):
+                c = cls_of(n.value)
+                if c:
+                    return c
+            if isinstance(n, ast.NamedExpr) and n.target.id == v.id:
+                c = cls_of(n.value)
+                if c:
+                    return c
+    return None
 
 
 MEMO_DECORATORS = ("lru_cache", "cache", "cached_property")
@@ -232,6 +322,10 @@ def rule_memo(rep: Report, rid="C15.memo") -> None:
         for x in ast.walk(fi.node):
             if isinstance(x, ast.Attribute) and isinstance(x.ctx, ast.Load) and isinstance(x.value, ast.Name) and x.value.id in ps and x.attr in late:
                 stale.append(f"{x.value.id}.{x.attr} (line {x.lineno})")
+        shared = [f"returns a {c} (line {x.lineno})" for x in ast.walk(fi.node) if isinstance(x, ast.Return) and x.value is not None
+                  for c in [_stateful_instance(fi, x.value)] if c]
+        rep.ob(rid, f"memoised {fi.qualname} hands out no object that changes after construction (every caller would get the same one)", not shared, file=fi.file,
+               line=fi.node.lineno, function=fi.qualname, expected="a value", found=shared or "no stateful object returned")
         rep.ob(rid, f"memoised {fi.qualname} depends only on its arguments (no attribute that changes after construction)", not stale, file=fi.file,
                line=fi.node.lineno, function=fi.qualname, expected="pure function of hashable arguments", found=sorted(set(stale)) or "no mutable state read")
     rep.counts["memoised functions inspected"] = n
